@@ -29,6 +29,20 @@ pub fn ring_cfg(max_sq_log2: u8) -> impl Strategy<Value = RingCfg> {
     })
 }
 
+/// Ring configurations including large queues (mappings of several pages).
+pub fn ring_cfg_wide() -> impl Strategy<Value = RingCfg> {
+    (prop_oneof![6 => 0u8..=3, 2 => 4u8..=6, 2 => 7u8..=8], proptest::option::of(prop_oneof![4 => 0u8..=6, 2 => 7u8..=10]), start(), start(), any::<bool>(), proptest::bool::weighted(0.2)).prop_map(|(sq_log2, cq_log2, sq_start, cq_start, alt_layout, defer_taskrun)| RingCfg {
+        sq_log2,
+        cq_log2,
+        sq_start,
+        cq_start,
+        sqpoll: false,
+        direct_slots: 0,
+        alt_layout,
+        defer_taskrun,
+    })
+}
+
 pub fn outcome() -> impl Strategy<Value = Outcome> {
     prop_oneof![
         5 => any::<u16>().prop_map(|frac| Outcome::Ok { frac }),
